@@ -106,9 +106,16 @@ func cmdVerify(args []string) {
 	for _, r := range res {
 		counts[r.Status]++
 		if r.Status != "proved" && r.Status != "cover-ok" || *verbose {
-			fmt.Printf("%-12s %-8s %6.2fs %s   // %s %s\n", r.Status, r.Solver, r.TimeS, r.Obl.Name, r.Obl.Text, r.Reason)
+			fmt.Printf("%-12s %-8s %6.2fs %s   // %s %s\n", r.Status, r.Solver, r.TimeS, r.Obl.Name, r.Obl.Text, trunc(r.Reason, 300))
 		}
 	}
 	fmt.Println(counts)
 }
 
+
+func trunc(s string, n int) string {
+	if len(s) > n {
+		return s[:n] + "..."
+	}
+	return s
+}
